@@ -6,7 +6,7 @@ import common
 import stores
 
 LEVEL = 'proof'
-TRUSTED_EXTRA = ['harness/pytrans4.py: fail-closed translator of json.Authenticator.load / get_authkey (hpfeeds/broker/auth/json.py), memory.Authenticator.get_authkey, multi.Authenticator.get_authkey and env.py (get_key, get_list, get_authkey; str.upper is a parameter assumed to upper-case the four field names) -> coq/StoreGen.v (regenerated on every run), with coq/PyStore.v, its reading of the fragment (json.load / open = the argument parsed; dict/list/items/in/subscript on parsed JSON values; logger calls skipped); the translated methods are proved equal to Stores.load / Stores.json_get in coq/StoreGenEq.v (no axioms); the sqlite store is tied by the correspondence check only']
+TRUSTED_EXTRA = ['harness/pytrans4.py: fail-closed translator of json.Authenticator.load / get_authkey (hpfeeds/broker/auth/json.py), memory.Authenticator.get_authkey, multi.Authenticator.get_authkey and env.py (get_key, get_list, get_authkey; str.upper is a parameter assumed to upper-case the four field names) -> coq/StoreGen.v (regenerated on every run), with coq/PyStore.v, its reading of the fragment (json.load / open = the argument parsed; dict/list/items/in/subscript on parsed JSON values; logger calls skipped); the translated methods are proved equal to Stores.load / Stores.json_get in coq/StoreGenEq.v (no axioms); sqlite.py get_authkey is matched against its shape (the exact query text with a bound parameter, fetchone, the column order of the create-table statement) and emitted as a first-match lookup: what SQLite does with that query is assumed and exercised by the correspondence check']
 ASSUMPTIONS = ['json.load is modelled: the model is given the document json.load returns (or None when open/json.load raises)',
                'the inotify watcher only decides WHEN load() runs; load() itself is what is modelled and driven']
 IMPORTS = 'Bytes Run Stores StoresRun'
